@@ -1,0 +1,54 @@
+//go:build verif && linux
+
+package conn
+
+import (
+	"net"
+
+	"golang.org/x/net/ipv6"
+)
+
+// Receive-side access for the verification harness of property C19 (build
+// tag verif only).  Add-only.
+
+// verifC19Reader stands in for the socket: ReadBatch returns one datagram per
+// queued source address, with the address as the kernel would report it.
+type verifC19Reader struct {
+	pending []*net.UDPAddr
+}
+
+func (r *verifC19Reader) ReadBatch(msgs []ipv6.Message, flags int) (int, error) {
+	n := 0
+	for n < len(r.pending) && n < len(msgs) {
+		msgs[n].N = copy(msgs[n].Buffers[0], "c19")
+		msgs[n].NN = 0
+		msgs[n].Addr = r.pending[n]
+		n++
+	}
+	r.pending = r.pending[n:]
+	return n, nil
+}
+
+// VerifReceiveIP runs (*StdNetBind).receiveIP, the receive path shared by the
+// IPv4 and IPv6 sockets, over an in-memory batch reader that delivers one
+// datagram from each of srcs (no control data), and returns the endpoint
+// built for each datagram, in order.
+func VerifReceiveIP(srcs []*net.UDPAddr) ([]Endpoint, error) {
+	s := NewStdNetBind().(*StdNetBind)
+	r := &verifC19Reader{pending: append([]*net.UDPAddr(nil), srcs...)}
+	bufs := make([][]byte, IdealBatchSize)
+	for i := range bufs {
+		bufs[i] = make([]byte, 64)
+	}
+	sizes := make([]int, IdealBatchSize)
+	eps := make([]Endpoint, IdealBatchSize)
+	var out []Endpoint
+	for len(r.pending) > 0 {
+		n, err := s.receiveIP(r, nil, false, bufs, sizes, eps)
+		if err != nil {
+			return out, err
+		}
+		out = append(out, eps[:n]...)
+	}
+	return out, nil
+}
